@@ -604,7 +604,8 @@ class Engine:
                 v = self.read(root, path)
                 if isinstance(v, Ref): root, path = v.root, list(v.path)
                 elif isinstance(v, BoxV): root, path = v.slots, [0]
-                else: raise Unsupported('deref of %s in %s' % (type(v).__name__, fr.fn.name))
+                elif v is None: raise Unsupported('deref of an uninitialised value in %s' % fr.fn.name)
+                else: pass     # the model collapsed a reference-to-reference earlier (e.g. Clone of `&&T`): a deref of a plain value is the value
             elif k == 'field': path = path + [p[1]]
             elif k == 'downcast': pass
             elif k == 'index':
